@@ -231,7 +231,7 @@ def _inline_new_helpers(path, unit):
         out_lines.append("attributes #%d = {%s}" % (n, body))
     with open(path + ".in", "w") as fh:
         fh.write("\n".join(out_lines))
-    r = subprocess.run(["opt-14", "-passes=always-inline,function(jump-threading)", "-S", path + ".in", "-o", path + ".out"],
+    r = subprocess.run(["opt-14", "-passes=always-inline,function(mem2reg,jump-threading)", "-S", path + ".in", "-o", path + ".out"],
                        stdout=subprocess.PIPE, stderr=subprocess.PIPE, text=True)
     os.unlink(path + ".in")
     if r.returncode != 0:
